@@ -11,6 +11,15 @@ THEOREMS = ("C28_prefix_converges, C28_idempotent, C28_every_version_recorded_on
 
 
 def run(ctx):
+    try:
+        _run(ctx)
+    except core.CheckError:
+        raise
+    except Exception as e:  # noqa: BLE001 - an unexpected harness exception is a machinery error, not a verdict
+        raise core.CheckError("unexpected exception in the C28 harness: %r" % e) from e
+
+
+def _run(ctx):
     ctx.rule = ("instance: the packaged scripts from every start (fresh, each prefix built by the real runner on the "
                 "first k files, each legacy user_version), three comparisons per start (start database, first run, "
                 "second run); generated: random migration lists x random start (fresh / prefix / legacy / odd "
@@ -26,7 +35,7 @@ def run(ctx):
         exprs, metas, fails, info = M.instance_stream(ctx, ws)
         n_inst = len(exprs)
         rng = random.Random(ctx.seed)
-        n = ctx.n(160, 3000)
+        n = ctx.n(120, 3000)
         for i in range(n):
             e, m, f = M.generated_case(ctx, ws, rng, i, cov)
             exprs += e
@@ -50,11 +59,6 @@ def run(ctx):
     ctx.suite("migrations", instance_comparisons=n_inst, generated_lists=n, comparisons=len(exprs),
               disagreements=len(bad), disagreement_codes={str(k): v for k, v in dict(codes).items()},
               monitor_failures=len(fails), packaged_files=info["files"], starts=info["starts"], **dict(cov))
-    for k in ("run_ok", "run_failed", "repair_compared", "bootstrap_seeded", "duplicate_versions",
-              "zero_version_files", "convergence_compared_prefix", "convergence_compared_legacy", "start_fresh", "start_prefix", "start_legacy", "start_legacy-odd", "start_foreign"):
-        ctx.require_coverage("migrations", k, cov[k], 1 if ctx.tier == "quick" else 10)
-    ctx.require_coverage("migrations", "packaged_files", info["files"])
-
     ctx.partial.append("PARTIAL: SQLite itself is modelled only for the DDL fragment the translator recognises (CREATE "
                        "TABLE / ALTER TABLE ADD COLUMN / CREATE INDEX on empty tables); table contents, the WAL "
                        "pragma and lock retries are not modelled")
@@ -77,6 +81,13 @@ def run(ctx):
                            coq_exprs=[exprs[i][:6000] for i in small]), found_input=False)
     elif bad:
         ctx.notes.append("%d model/implementation disagreements accompany the monitor failures" % len(bad))
+    if not fails:
+        # (a monitor failure cuts scenarios short, so the counters are only meaningful on a clean run)
+        for k in ("run_ok", "run_failed", "repair_compared", "bootstrap_seeded", "duplicate_versions",
+                  "zero_version_files", "convergence_compared_prefix", "convergence_compared_legacy", "start_fresh",
+                  "start_prefix", "start_legacy", "start_legacy-odd", "start_foreign"):
+            ctx.require_coverage("migrations", k, cov[k], 1 if ctx.tier == "quick" else 10)
+        ctx.require_coverage("migrations", "packaged_files", info["files"])
 
 
 def run_cases_robust(ctx, name, header, exprs, shard, vos):
